@@ -184,7 +184,7 @@ def run(ctx):
     ctx.assume("Im b_c <= 0 for every atom (R7 checks the tables), so |Im b| = -Im b")
 
 
-def _r4(ctx):
+def _r4(ctx, R="R4"):
     """energy_dependent_init on a generic table: units, ordering, natural Lu."""
     from ptstat.world import World
     E = sp.symbols("E1:4", positive=True)
@@ -212,35 +212,35 @@ def _r4(ctx):
     for key, off in ((("Lu", 176), 0), (("Gd", None), 1)):
         tab = I.heap[recs[key].id].get("nsf_table")
         good = isinstance(tab, tuple) and len(tab) == 2 and all(isinstance(t, Vec) and len(t) == 3 for t in tab)
-        ctx.check(good, "R4", f"{key[0]}{key[1] or ''}: nsf_table is a (wavelength, b_c) pair of arrays",
+        ctx.check(good, R, f"{key[0]}{key[1] or ''}: nsf_table is a (wavelength, b_c) pair of arrays",
                   f"stored {_s(tab)}", site)
         if not good:
             continue
         xp, fp = tab
         for k in range(3):
-            eq(ctx, "R4", f"{key[0]}{key[1] or ''}: wavelength node {k} = neutron_wavelength(1000*E) reversed",
+            eq(ctx, R, f"{key[0]}{key[1] or ''}: wavelength node {k} = neutron_wavelength(1000*E) reversed",
                xp.items[k], lamk[2 - k], site)
-            eq(ctx, "R4", f"{key[0]}{key[1] or ''}: b_c node {k} = Re + i Im of the same (reversed) row",
+            eq(ctx, R, f"{key[0]}{key[1] or ''}: b_c node {k} = Re + i Im of the same (reversed) row",
                fp.items[k], rr[2 - k] + off + sp.I * (ii[2 - k] + off), site)
     # natural Lu
     tab = I.heap[recs[("Lu", None)].id].get("nsf_table")
     good = isinstance(tab, tuple) and len(tab) == 2 and isinstance(tab[1], Vec)
-    ctx.check(good, "R4", "natural Lu gets a mixed table", f"stored {_s(tab)}", site)
+    ctx.check(good, R, "natural Lu gets a mixed table", f"stored {_s(tab)}", site)
     if good:
         a5, a6 = sp.Symbol("ab175", positive=True), sp.Symbol("ab176", positive=True)
         for k in range(3):
-            eq(ctx, "R4", f"Lu natural node {k} = (b175*ab175 + b176*ab176)/100 on the Lu-176 grid",
+            eq(ctx, R, f"Lu natural node {k} = (b175*ab175 + b176*ab176)/100 on the Lu-176 grid",
                tab[1].items[k], (b175 * a5 + (rr[2 - k] + sp.I * ii[2 - k]) * a6) / 100, site)
-            eq(ctx, "R4", f"Lu natural wavelength node {k}", tab[0].items[k], lamk[2 - k], site)
+            eq(ctx, R, f"Lu natural wavelength node {k}", tab[0].items[k], lamk[2 - k], site)
     # neutron_wavelength strictly decreasing in energy
     Es = sp.Symbol("E", positive=True)
     nw = I.call(I.global_name("nsf", "neutron_wavelength"), [Es], {})
     d = sp.simplify(sp.diff(nw, Es))
-    ctx.check(d.is_negative is True, "R4", "neutron_wavelength is strictly decreasing in energy",
+    ctx.check(d.is_negative is True, R, "neutron_wavelength is strictly decreasing in energy",
               f"d lambda/dE = {d} is not negative for E > 0", fsite(ctx, "nsf.neutron_wavelength"))
     # every tabulated energy column strictly increasing => reversed wavelengths increasing (np.interp needs it)
     rows, ed = _tables(ctx)
     bad = [k for k, vals in ed.items() if any(b[0] <= a[0] for a, b in zip(vals, vals[1:]))]
-    ctx.check(not bad, "R4", "every energy-dependent table is strictly increasing in energy",
+    ctx.check(not bad, R, "every energy-dependent table is strictly increasing in energy",
               f"not increasing: {bad}", "periodictable/nsf_tables.py", sample={"tables": len(ed)})
-    ctx.floor("R4", 20)
+    ctx.floor(R, 20)
